@@ -1,7 +1,8 @@
 """C13 - pattern commands match '*' as a wildcard and everything else literally.
 
 proof: lean/CashewsVerif/Props/C13.lean (translate denotes the glob language; scan / delete_match / get_match
-       exact on stores with expired-unpurged entries; transaction merge = direct selection).
+       exact on stores with expired-unpurged entries; get_match yields every live matching key with its own value
+       whatever that value is - a stored None is a value - except bit-field objects; transaction merge = direct selection).
 tie:   the same (store, pattern, command) cases run on the real `Memory`, the `Cache` facade, inside
        `cache.transaction()` (3 modes) and through `@cache.invalidate`, and on the model driver; compared
        impl == model (correspondence), impl == spec (glob over the live keys: the property), and
@@ -26,6 +27,9 @@ DRIVER = Driver("driver_c13", "Drivers/C13.lean")
 NONTRIVIAL = {
     "regex_reading_would_raise", "regex_reading_would_select_differently", "expired_unpurged_key_matches",
     "tx_pending_delete_of_a_matching_store_key", "tx_matching_key_in_overlay_and_store", "tx_matching_key_only_in_overlay",
+    # values: a key must not be left out (or reported with another value) because of what it holds
+    "get_match_matching_key_holds_None", "get_match_matching_key_holds_a_falsy_value", "matching_key_holds_a_bit_field",
+    "tx_None_written_over_a_matching_store_value", "tx_value_written_over_a_matching_bit_field",
 }
 
 TRUSTED = [
@@ -36,7 +40,8 @@ TRUSTED = [
     "Python's own '.*'.join(re.escape(..)) and re.fullmatch on it agrees with the glob spec on every (pattern, key) pair counted "
     "in `re_trusted_pairs_exercised`",
     "hand-written models lean/CashewsVerif/Model/Glob.lean (Memory.scan/get_match/delete_match, TransactionBackend merge) and "
-    "Model/Mem.lean, tied to the code by this run's correspondence",
+    "Model/Mem.lean, tied to the code by this run's correspondence; stored values are opaque to the model except for the one "
+    "distinction the code makes (bit-field object or not): a stored None is `some Val.nil`, distinct from the default `none`",
     "harness: virtual clock (harness/vtime.py), canonicalisation (results sorted), the template substitution done by the "
     "harness for `invalidate` cases (key templating itself is C08's subject)",
     "a Python `set`/`OrderedDict` holds a key once (hypothesis `Nodup` of the store theorems; proved preserved by the modelled commands)",
@@ -196,6 +201,8 @@ def sweep_frame(chk: Check, st: dict, kind: str, keys: list, adv: int, patterns:
     texts = [k[0] for k in keys]
     live_texts = [k[0] for k in keys if k[1] is None or k[1] > adv]
     expired_texts = [k[0] for k in keys if not (k[1] is None or k[1] > adv)]
+    bit_texts = [k[0] for k in keys if G.is_bits(k[2]) and (k[1] is None or k[1] > adv)]
+    val_of_text = {k[0]: k[2] for k in keys}
     n_live = len(live_texts)
     for j, pat in enumerate(patterns):
         ans = answers[2 + j * step]
@@ -226,10 +233,17 @@ def sweep_frame(chk: Check, st: dict, kind: str, keys: list, adv: int, patterns:
             tags.append("regex_reading_would_select_differently")
         if "*" in pat and sel and len(sel) < n_live:
             tags.append("wildcard_splits_the_live_keys")
-        if expired_texts:
+        if expired_texts or bit_texts:
             rx = re.compile(".*".join(re.escape(part) for part in pat.split("*")), re.DOTALL)   # counting only
             if any(rx.fullmatch(k) for k in expired_texts):
                 tags.append("expired_unpurged_key_matches")
+            if any(rx.fullmatch(k) for k in bit_texts):
+                tags.append("matching_key_holds_a_bit_field")
+        if cmd == "get_match":
+            if any(val_of_text[t] == "n" for t in sel):
+                tags.append("get_match_matching_key_holds_None")
+            if any(val_of_text[t] in G.FALSY_VALS for t in sel):
+                tags.append("get_match_matching_key_holds_a_falsy_value")
         for t in tags:
             st["interesting"][t] = st["interesting"].get(t, 0) + 1
         if set(tags) & NONTRIVIAL:
@@ -371,7 +385,7 @@ def run(chk: Check) -> int:
     exhaustive_done = False
     if not stop:
         pyglob_selfcheck(rng, st)
-        all_live = [[t, None, f"i:{i % 9}"] for i, t in enumerate(small)]
+        all_live = [[t, None, G.STORE_VALS[i % len(G.STORE_VALS)]] for i, t in enumerate(small)]   # every value kind, bit fields too
         stop = sweep_frame(chk, st, "mem", all_live, 0, small, "scan", "exhaustive")
         exhaustive_done = not stop
         found += int(stop)
@@ -385,7 +399,7 @@ def run(chk: Check) -> int:
         mixed = []
         for i, t in enumerate(small):
             r = rng.random()
-            mixed.append([t, 8 if r < 0.33 else 96 if r < 0.66 else None, f"t:{i % 5}"])
+            mixed.append([t, 8 if r < 0.33 else 96 if r < 0.66 else None, rng.choice(G.STORE_VALS)])
         pats = small if chk.thorough else rng.sample(small, 500)
         for kind, cmd in [("mem", "scan"), ("facade", "get_match")] + ([("facade_secret", "scan"), ("mem", "get_match"), ("facade", "scan")] if chk.thorough else []):
             if not stop:
@@ -396,6 +410,13 @@ def run(chk: Check) -> int:
             if not stop:
                 stop = sweep_frame(chk, st, kind, all_live, 0, dpats, "delete_match", "exhaustive-delete")
                 found += int(stop)
+
+    # 2b. the value alphabet: every value (None, the other falsy values, bit fields, ordinary ones) in every position
+    #     a pattern command can meet it - store, overlay, both - fully enumerated in both tiers
+    if not stop:
+        grid = G.value_grid()
+        st["value_grid"] = len(grid)
+        stop = run_batch(grid)
 
     # 3. transactions: every split of three keys between store, overlay and pending deletes
     if not stop:
@@ -414,15 +435,21 @@ def run(chk: Check) -> int:
         "distinct_nontrivial": len(st["distinct"]),
         "rule": "evaluation = one pattern command (scan / get_match / delete_match / invalidating call) executed on the real code and on the "
                 "model for one (store, pattern); sources: corpus, the exhaustive grid (every pattern x every key of length <= 4 over "
-                "{a : * . + (}, one store holding all 1555 keys), the same grid with a third of the keys expired-unpurged, every split of "
-                "three keys between store/overlay/pending deletes (thorough: all 12^3 placements x 3 commands x 3 modes for the first scenario, "
+                "{a : * . + (}, one store holding all 1555 keys, whose values cycle through the whole value alphabet), the same grid with a third "
+                "of the keys expired-unpurged and values drawn from the value alphabet, the value grid (fully enumerated in both tiers: every value - None, "
+                "0, '', b'', [], False, {}, 0.0, (), True, ordinary ints/strings, bit fields created by incr_bits - under a matching key x "
+                "{no ttl, live ttl, expired} x 3 commands x Memory/facade/signed facade, and inside a transaction every value-carrying placement "
+                "of that key {S, St, X, SD, O, Ot, OD, SO, XO, SDO} x store value x written value x 3 commands x 3 modes), every split of "
+                "three keys between store/overlay/pending deletes, bit-field store keys included (thorough: all 15^3 placements x 3 commands x 3 modes for the first scenario, "
                 "a third of them for two more; quick: seeded sample), and seeded random cases over letters, ':', '*' and . + ( ) | ^ $ { } "
                 "(15% over the small alphabet, 15% with newline, space, tab, - # & ~ and a non-ASCII letter added) through Memory, the Cache facade (plain, signed), "
                 "cache.transaction() in fast/locked/serializable mode and @cache.invalidate (outside and inside a transaction). "
                 "A case is non-trivial iff it reaches a state in which a wrong implementation would show: the pre-repair regex reading "
                 "(re.compile(pattern.replace('*','.*'))) would raise or select a different key set on this very store; an expired-unpurged key "
                 "matches the pattern; inside a transaction a matching store key is pending-deleted / a matching key is in overlay and store / "
-                "only in the overlay. (Weaker states - a metacharacter pattern selecting a key, '*' splitting the live keys, an invalidate "
+                "only in the overlay; a matching visible key holds a bit field; get_match meets a matching key holding None / another falsy value; "
+                "a transaction wrote None over a matching store value / a value over a matching bit field. Stored values are drawn from the value "
+                "alphabet everywhere (None 18%, other falsy 22%, bit field 10% of store entries). (Weaker states - a metacharacter pattern selecting a key, '*' splitting the live keys, an invalidate "
                 "template selecting a key - are counted in interesting_states_cases but do not make a case non-trivial.) "
                 "distinct = distinct canonical case (or (sweep, command, backend, pattern)). "
                 "Cases whose pattern would reach the transaction's own ':tx_lock:'/':serializable:lock' keys are not generated (the property's proviso); "
@@ -437,13 +464,20 @@ def run(chk: Check) -> int:
         "pyglob_selfcheck_pairs": st.get("pyglob_selfcheck_pairs", 0),
         "corpus_cases": len(corpus),
         "tx_split_cases": st.get("tx_splits", 0),
+        "value_grid_cases": st.get("value_grid", 0),
+        "value_alphabet": {"plain": G.PLAIN_VALS, "bit_fields": G.BIT_VALS,
+                           "legend": "n None; i:<k> int; t:<k> str; e:s '' e:b b'' e:l [] e:f False e:d {} e:z 0.0 e:u () e:T True; "
+                                     "b:<k> Bitarray made by incr_bits(key, k%4, size=2, by=1+k//4)"},
         "op_histogram": st["hist"],
         "interesting_states_cases": st["interesting"],
         "trusted_base": TRUSTED,
         "partial": "templating of the invalidate key (str.format of the arguments) is executed, not modelled: the harness substitutes the "
                    "arguments itself (C08 covers key templates); keys/patterns longer than ~12 characters and stores of more than 1555 keys are "
                    "not sampled; only the in-memory backend is run (Redis' own MATCH globbing, also anchored by the property, cannot be run here); "
-                   "a deadline elapsing inside a transaction is excluded (proviso of C03/C04); decision on re.DOTALL: '*' stands for any run of "
+                   "a deadline elapsing inside a transaction is excluded (proviso of C03/C04); bit fields are created in the store before the "
+                   "transaction only (incr_bits inside a transaction is proxied straight to the backend and is not a pattern-command matter; the "
+                   "in-transaction get_match theorems carry the hypothesis that the overlay holds no bit-field object, proved preserved by the "
+                   "transaction commands); values are compared by type and equality (a container value is one of [], {}, ()); decision on re.DOTALL: '*' stands for any run of "
                    "characters including a newline, so keys with '\\n' are part of the random stream and a miss there is reported as a violation",
     })
     chk.assumptions.extend(TRUSTED)
